@@ -236,13 +236,47 @@ def check_case(run, case, tier='quick'):
         session.drop_session(sn)
         repo.drop_rules(name)
 
+def check_big_base(run, case):
+    """More than 50 000 base structures with the Markov structure among them: --skip_brute loads exactly the structures the default run loads, minus the Markov one
+    (judged on what the two loads hold; such a run cannot be exhausted here)."""
+    import random
+    from . import c01
+    rng = random.Random(case['hseed'])
+    big = c01.big_queue_case(rng)
+    spec = big['spec']
+    om = rulesets.gen_omen(rng, alphabet='ab', ngram=2, max_len=3)
+    om['probs'] = [[0, 0.01]]; om['keyspace'] = [[l, 1] for l in range(19)]
+    spec['omen'] = om
+    spec['base'] = [[s_, p_ * 0.8] for s_, p_ in spec['base']]
+    spec['base'].insert(rng.choice([0, 10, 25000, 49990]), ['M', 0.2])
+    name, path = gstream.materialise(spec, 'c14big')
+    try:
+        d = monitors.load_pcfg(path, 'x', skip_brute=False, skip_case=False)
+        s_ = monitors.load_pcfg(path, 'x', skip_brute=True, skip_case=False)
+        key = lambda b: tuple(r for r in b['replacements'])
+        dd = Counter(key(b) for b in d.base if 'M' not in b['replacements'])
+        ss = Counter(key(b) for b in s_.base)
+        run.ev('big_base_loads', 2)
+        if dd != ss:
+            only_s = list((ss - dd))[:3]; only_d = list((dd - ss))[:3]
+            run.violation(f'ruleset with {len(spec["base"])} base structures: --skip_brute loads {sum(ss.values())} non-Markov structures, the default run {sum(dd.values())}; '
+                          f'only with --skip_brute: {only_s}, only without: {only_d}', case); return
+        run.case(h(['big-base', case['hseed']]))
+    finally:
+        repo.drop_rules(name)
+
 def run(run, rng):
     run.required_events = ['POP', 'skip_brute_comparisons', 'all_lower_comparisons', 'flag_restore_histories']
     run.min_distinct = 8
     run.assumptions = ['P(Markov) = the probability on the first base-structure line that is exactly "M"', 'rescaled probabilities compared within 6 ulp',
                        'order compared modulo permutations inside runs of exactly equal probability (before or after rescaling)']
+    if run.shard[0] == 1 % run.shard[1]:
+        run.guard({'big_base': True, 'hseed': rng.getrandbits(32)}, check_big_base, seconds=600)
     for i in range(N[run.tier]):
         run.guard(gen_case(rng), check_case, run.tier, seconds=120)
 
 def replay(run, case):
-    check_case(run, case['case'], 'thorough')
+    if case['case'].get('big_base'):
+        check_big_base(run, case['case'])
+    else:
+        check_case(run, case['case'], 'thorough')
